@@ -421,6 +421,12 @@ def one_insert(chk, rng, doc, op, before, case, reqs) -> bool:
     _, fam, mode, name, k = op
     automatic = mode.startswith("automatic")
     default = mode == "default"
+    # the definition is given as an object or as its XML text (insert_style takes both); the texts come from a small pool, so that
+    # the SAME text is inserted again and again, in other containers and in other documents of the same process
+    as_text = fam != "font-face" and not default and rng.random() < 0.3          # (a default style given as an object is rebuilt in place: the expectation below reads the object)
+    if as_text:
+        k = k % 2
+        op = (op[0], fam, mode, name, k)
     try:
         style = make_style(op)
     except Exception as e:  # noqa: BLE001
@@ -437,7 +443,8 @@ def one_insert(chk, rng, doc, op, before, case, reqs) -> bool:
     reqs.append(("sy init " + enc.doc(before), "ok", case))
     line = f"sy insert {sty_in} {int(automatic)} {int(default)}"
     try:
-        ret = doc.insert_style(style, automatic=automatic, default=default)
+        chk.count("insert", "definition given as XML text" if as_text else "definition given as an object")
+        ret = doc.insert_style(style.serialize() if as_text else style, automatic=automatic, default=default)
     except (AttributeError, ValueError) as e:
         chk.count("insert", f"refused: {type(e).__name__}")
         reqs.append((line, "refused", case))
@@ -452,6 +459,8 @@ def one_insert(chk, rng, doc, op, before, case, reqs) -> bool:
         return False
     reqs.append((line, f"ok {enc.name(ret if ret else None)} # {enc.doc(after)}", case))
     want_c = required_container(fam, automatic, default)
+    if as_text and name is None and isinstance(ret, str):
+        style.name = ret          # the name the library gave to the definition it parsed from the text
     xml = etree.tostring(style._Element__element, method="c14n", exclusive=True)
     tagl = "default-style" if default and fam in STD else None
     here = [it for it in (after[want_c] or []) if it[3] == xml]
